@@ -40,7 +40,7 @@ def run(rep, tier):
     rep.analysed(ie)
     fo = Fold(ie).run()
     st = [e for e in fo.events if e["kind"] == "store" and e["target"] == "escape_rate_"]
-    final = fo.final_env.get(("field", "escape_rate_"))
+    final = fo.exit_env().get(("field", "escape_rate_"))
     ok = final is not None and str(getattr(final, "func", "")).startswith("SUM_") and re.match(r"^getRate\(event@L\d+\)$", str(final.args[0])) is not None
     loops = [n for n in ie.walk() if n.get("k") == "rangefor"]
     ok = ok and len(loops) == 1 and nows(show(loops[0]["range"])) == "events_"
